@@ -262,6 +262,9 @@ CAMPAIGNS["add_metadata_command"] = model_campaign(
     quick=[ex(ph(["cli_add_metadata"], False, "r", 80))],
     thorough=[ex(ph(["cli_add_metadata"], True, "r", 1500))])
 
+CAMPAIGNS["recorded_suite"] = {"name": "recorded_suite", "kind": "recorded", "tiers": ["thorough"],
+                               "judge": ["BiomRecTrace.tla", "BiomRecTrace.cfg"]}
+
 CAMPAIGNS["err_profile"] = {
     "name": "err_profile", "kind": "err", "judge": ["BiomErrTrace.tla", "BiomErrTrace.cfg"],
     "cfgs": {"quick": [{"depth": 2, "nest": 3, "pick": [0, 0]},
@@ -291,13 +294,13 @@ PROPERTIES = {
     "C12": {"level": "model_checking", "campaigns": [CAMPAIGNS["subsample_counts"]], "assumptions": []},
     "C05": {
         "level": "model_checking",
-        "campaigns": [CAMPAIGNS["coherence_walks"], CAMPAIGNS["reads_full"], CAMPAIGNS["partition_collapse"],
+        "campaigns": [CAMPAIGNS["coherence_walks"], CAMPAIGNS["recorded_suite"], CAMPAIGNS["reads_full"], CAMPAIGNS["partition_collapse"],
                       CAMPAIGNS["coherence_pairs"]],
         "assumptions": ["copy.deepcopy, scipy toarray and numpy are trusted for the projection"],
     },
     "C07": {
         "level": "model_checking",
-        "campaigns": [CAMPAIGNS["inplace_twins"], CAMPAIGNS["no_showthrough"], CAMPAIGNS["reorder_full"],
+        "campaigns": [CAMPAIGNS["inplace_twins"], CAMPAIGNS["recorded_suite"], CAMPAIGNS["no_showthrough"], CAMPAIGNS["reorder_full"],
                       CAMPAIGNS["newtable_frame"]],
         "assumptions": ["copy.deepcopy, scipy toarray and numpy are trusted for the projection"],
     },
@@ -313,19 +316,19 @@ PROPERTIES = {
     },
     "C18": {
         "level": "model_checking",
-        "campaigns": [CAMPAIGNS["metadata_updates"], CAMPAIGNS["mapping_files"], CAMPAIGNS["add_metadata_command"]],
+        "campaigns": [CAMPAIGNS["metadata_updates"], CAMPAIGNS["recorded_suite"], CAMPAIGNS["mapping_files"], CAMPAIGNS["add_metadata_command"]],
         "assumptions": [],
     },
     "C08": {
         "level": "model_checking",
-        "campaigns": [CAMPAIGNS["filter_direct"], CAMPAIGNS["filter_after_history"],
+        "campaigns": [CAMPAIGNS["filter_direct"], CAMPAIGNS["recorded_suite"], CAMPAIGNS["filter_after_history"],
                       CAMPAIGNS["empty_head_after_history"]],
         "assumptions": ["copy.deepcopy, scipy toarray and numpy are trusted for the projection",
                         "behaviour of the compiled kernels is taken from the .so (rebuilt from .c when stale)"],
     },
     "C06": {
         "level": "model_checking",
-        "campaigns": [CAMPAIGNS["reorder_full"], CAMPAIGNS["involutions"]],
+        "campaigns": [CAMPAIGNS["reorder_full"], CAMPAIGNS["recorded_suite"], CAMPAIGNS["involutions"]],
         "assumptions": ["copy.deepcopy, scipy toarray and numpy are trusted for the projection"],
     },
 }
@@ -357,9 +360,68 @@ def run_err_campaign(camp, tier, seed, wd):
     return {"summary": summary, "stimuli": stimuli, "traces": traces, "judge": j}
 
 
+def run_recorded_campaign(camp, tier, seed, wd):
+    """Run the repository's own test-suite with the guarded recorder hook and judge the recorded events."""
+    import subprocess
+    import time
+    if tier not in camp["tiers"]:
+        return None
+    t0 = time.time()
+    repo = os.environ.get("VERIF_REPO", "/repo")
+    trace = os.path.join(wd, "recorded_suite.ndjson")
+    env = dict(os.environ, BIOM_FORMAT_VERIF="1", BIOM_FORMAT_VERIF_RECORDER="harness.recorder",
+               BIOM_FORMAT_VERIF_TRACE=trace, PYTHONPATH=P.ROOT + os.pathsep + repo)
+    p = subprocess.run(["/venv/bin/python", "-m", "pytest", "-q", "-x", "-p", "no:cacheprovider", "biom"], cwd=repo, env=env,
+                       stdout=subprocess.PIPE, stderr=subprocess.STDOUT, text=True, timeout=1800)
+    events = []
+    if os.path.exists(trace):
+        for ln in open(trace, encoding="utf-8"):
+            try:
+                events.append(json.loads(ln))
+            except Exception:
+                pass
+    for i, e in enumerate(events):
+        e["seq"] = i + 1
+    t1 = time.time()
+    # one event = one trace for the generic machinery
+    traces = [{"id": e["seq"], "pal": ["recorded", "plain"], "events": [e]} for e in events]
+    path = os.path.join(wd, "rec_events.ndjson")
+    with open(path, "w") as f:
+        for e in events:
+            f.write(json.dumps(e) + "\n")
+    from . import tlcrun
+    r = tlcrun.run_tlc(camp["judge"][0], camp["judge"][1], env={"TRACE_FILE": path}, workers=1,
+                       metadir=os.path.join(wd, "rec_meta"), timeout=1800)
+    if events and not r["completed"]:
+        raise P.Machinery("judge failed on recorded events:\n" + r["tail"])
+    recs = tlcrun.json_lines(r["lines"]) if events else []
+    fails = [x for x in recs if x["k"] == "FAIL"]
+    done = {x["id"]: x for x in recs if x["k"] == "DONE"}
+    if len(done) != len(events):
+        raise P.Machinery("recorded events judged: %d of %d" % (len(done), len(events)))
+    import collections
+    clauses = collections.Counter()
+    for d in done.values():
+        for c in d["seen"]:
+            clauses[c] += 1
+    j = {"fails": fails, "done": done, "states": r.get("states", 0), "transitions": r.get("transitions", 0),
+         "clauses": clauses, "cnt": sum(d["cnt"] for d in done.values())}
+    stimuli = [{"id": e["seq"], "tag": "repo test-suite", "pal": ["recorded", "plain"], "recorded_event": e,
+                "steps": [{"call": e["call"], "args": e["args"]}], "init": {}, "judge": camp["judge"]} for e in events]
+    print("  campaign %-28s suite=%s events=%d record=%.1fs judge=%.1fs fails=%d"
+          % (camp["name"], p.stdout.strip().split("\n")[-1][:60], len(events), t1 - t0, time.time() - t1, len(fails)),
+          flush=True)
+    summary = {"name": camp["name"], "behaviours_enumerated": len(events), "behaviours_replayed": len(events),
+               "sampled": False, "gen": [], "gen_states": 0, "gen_transitions": 0, "traces": len(traces),
+               "judge_states": j["states"], "fails": len(fails), "suite_result": p.stdout.strip().split("\n")[-1]}
+    return {"summary": summary, "stimuli": stimuli, "traces": traces, "judge": j}
+
+
 def run_campaign(camp, tier, seed, wd):
     if camp.get("kind") == "err":
         return run_err_campaign(camp, tier, seed, wd)
+    if camp.get("kind") == "recorded":
+        return run_recorded_campaign(camp, tier, seed, wd)
     rng = random.Random(seed * 1000003 + hash(camp["name"]) % 1000)
     import time
     t0 = time.time()
@@ -403,6 +465,17 @@ def run_campaign(camp, tier, seed, wd):
 
 
 def rejudge(stim, wd):
+    if "recorded_event" in stim:             # an event recorded from the repository's own test-suite
+        from . import tlcrun
+        path = os.path.join(wd, "rec_one.ndjson")
+        with open(path, "w") as f:
+            f.write(json.dumps(stim["recorded_event"]) + "\n")
+        r = tlcrun.run_tlc("BiomRecTrace.tla", "BiomRecTrace.cfg", env={"TRACE_FILE": path}, workers=1,
+                           metadir=os.path.join(wd, "rec_meta"))
+        if not r["completed"]:
+            raise P.Machinery(r["tail"])
+        recs = tlcrun.json_lines(r["lines"])
+        return {"fails": [x for x in recs if x["k"] == "FAIL"]}
     stim = dict(stim)
     stim.setdefault("id", 1)
     traces = P.replay([stim], wd, nproc=1, driver=stim.get("driver", "driver"))
